@@ -216,9 +216,26 @@ def check_units(desc, ctx):
 # ---- foreign-unit inputs and outputs of loading_at / pressure_at ------------------------------------------------------
 def strat_at():
     return st.builds(
-        lambda iso, req, qs: {"iso": iso, "req": req, "q": qs},
+        lambda cont, iso, req, qs: {"iso": iso, "req": req, "q": qs, "container": cont},
+        st.sampled_from(["array"] * 4 + ["list", "tuple", "series", "scalars", "np_scalars"]),
         S.point_desc(min_points=2, max_points=8, desorption=False, extras=False, meta=False, strict_loading=True),
         _req(), st.lists(st.floats(0, 1), min_size=1, max_size=4))
+
+
+def _ask(fn, q, container, **kw):
+    """Evaluate an accessor on the query values handed over in one of the accepted shapes; always returns a float array."""
+    q = np.asarray(q, dtype=float)
+    if container == "list":
+        return np.asarray(fn(q.tolist(), **kw), dtype=float)
+    if container == "tuple":
+        return np.asarray(fn(tuple(q.tolist()), **kw), dtype=float)
+    if container == "series":
+        return np.asarray(fn(pd.Series(q, index=[f"q{i}" for i in range(len(q))]), **kw), dtype=float)
+    if container == "scalars":
+        return np.array([float(np.asarray(fn(float(v), **kw)).reshape(-1)[0]) for v in q])
+    if container == "np_scalars":
+        return np.array([float(np.asarray(fn(np.float64(v), **kw)).reshape(-1)[0]) for v in q])
+    return np.asarray(fn(q, **kw), dtype=float)
 
 
 def _queries(vals, qs):
@@ -281,17 +298,19 @@ def check_at(desc, ctx):
         raise Inconclusive()
 
     # -- loading_at: input in foreign pressure units, output in foreign loading units
-    base_l = np.asarray(iso.loading_at(qp), dtype=float)
+    cont = desc.get("container", "array")
+    ctx.label("container_" + cont)
+    base_l = _ask(iso.loading_at, qp, cont)
     exp_base = np.interp(qp, p, l)
     if not allclose(base_l, exp_base, rel=1e-9):
         raise Violation(f"loading_at({qp.tolist()}) = {base_l.tolist()} != linear interpolation {exp_base.tolist()}",
                         tag="interp_value")
     qp_f = np.array([ru.conv_pressure(v, sp, tp, fluid, T) for v in qp])
-    got = np.asarray(iso.loading_at(qp_f, **_kw_p(prep)), dtype=float)
+    got = _ask(iso.loading_at, qp_f, cont, **_kw_p(prep))
     if not _within_slope(got, qp, p, l, dp):
         raise Violation(f"loading_at(pressure given as {tp}: {qp_f.tolist()}) = {got.tolist()} but the same pressures in "
                         f"stored units {sp} give {base_l.tolist()}", tag="input_interpretation")
-    got_o = np.asarray(iso.loading_at(qp, **_kw_l(lrep), **_kw_m(mrep)), dtype=float)
+    got_o = _ask(iso.loading_at, qp, cont, **_kw_l(lrep), **_kw_m(mrep))
     exp_o = np.array([ru.conv_full_loading(v, sl, sm, tl, tm, fluid, T, dens, mm) for v in base_l])
     if not allclose(got_o, exp_o, rel=ru.tol_for(sl, tl, sm, tm)):
         raise Violation(f"loading_at(..., {_kw_l(lrep)}, {_kw_m(mrep)}) stored {sl} per {sm}: {got_o.tolist()} != reference "
@@ -299,7 +318,7 @@ def check_at(desc, ctx):
     # property statement: equals reading a permanently converted clone natively
     clone = _converted_clone(iso, prep, lrep, mrep)
     cl = np.asarray(clone.loading_at(qp_f), dtype=float)
-    got_both = np.asarray(iso.loading_at(qp_f, **_kw_p(prep), **_kw_l(lrep), **_kw_m(mrep)), dtype=float)
+    got_both = _ask(iso.loading_at, qp_f, cont, **_kw_p(prep), **_kw_l(lrep), **_kw_m(mrep))
     exp_both = np.array([ru.conv_full_loading(v, sl, sm, tl, tm, fluid, T, dens, mm) for v in base_l])
     if not (allclose(got_both, cl, rel=1e-8) or
             (_within_slope(got_both / np.where(exp_both == 0, 1, exp_both) * base_l, qp, p, l, dp + dl) and
@@ -308,19 +327,19 @@ def check_at(desc, ctx):
                         f"converted clone read natively {cl.tolist()}", tag="loading_vs_clone")
 
     # -- pressure_at: input loading in foreign units, output pressure in foreign units
-    base_p = np.asarray(iso.pressure_at(ql), dtype=float)
+    base_p = _ask(iso.pressure_at, ql, cont)
     exp_bp = np.interp(ql, l, p)
     if not allclose(base_p, exp_bp, rel=1e-9):
         raise Violation(f"pressure_at({ql.tolist()}) = {base_p.tolist()} != linear interpolation {exp_bp.tolist()}",
                         tag="interp_value")
-    got_po = np.asarray(iso.pressure_at(ql, **_kw_p(prep)), dtype=float)
+    got_po = _ask(iso.pressure_at, ql, cont, **_kw_p(prep))
     exp_po = np.array([ru.conv_pressure(v, sp, tp, fluid, T) for v in base_p])
     if not allclose(got_po, exp_po, rel=ru.tol_for(sp, tp)):
         raise Violation(f"pressure_at(..., {_kw_p(prep)}) stored {sp}: {got_po.tolist()} != reference {exp_po.tolist()}",
                         tag="pressure_value")
     ql_f = np.array([ru.conv_full_loading(v, sl, sm, tl, tm, fluid, T, dens, mm) for v in ql])
     try:
-        got_pi = np.asarray(iso.pressure_at(ql_f, **_kw_l(lrep), **_kw_m(mrep)), dtype=float)
+        got_pi = _ask(iso.pressure_at, ql_f, cont, **_kw_l(lrep), **_kw_m(mrep))
     except pygaps.utilities.exceptions.ParameterError as e:
         raise Violation(f"pressure_at refuses a loading supplied as {tl} per {tm}: {e}", tag="input_refused")
     # conditioning: the interpolant may be steep, so compare through the slope-aware tolerance
